@@ -1,6 +1,6 @@
 (* Properties_C03.v — C03: sparse LU factors reproduce A.
    Property theorems only; proofs in LUProofs.v. *)
-From Model Require Import Base LU LUProofs DoolittleProofs DoolittleIPProofs NumInst.
+From Model Require Import Base LU LUProofs DoolittleProofs DoolittleIPProofs MozartIPProofs NumInst.
 From Coq Require Import Field ZArith.
 Local Open Scope nat_scope.
 
@@ -71,3 +71,21 @@ Theorem C03_doolittle_in_place_factors_reproduce_A :
     forall r c, r < n -> c < n -> nsum N n (fun j => nmul N (Lf r j) (Uf j c)) = view N Ap A r c.
 Proof. exact doolittle_in_place_decomposition_correct. Qed.
 Print Assumptions C03_doolittle_in_place_factors_reproduce_A.
+
+(* LuDecompositionMozartInPlace (the right-looking, outer-product elimination), both phases as coded: for a pattern
+   that contains the diagonal, a stored matrix holding A on A's pattern and zero in the fill-in slots, and no zero
+   pivot, the matrix left in place holds L below the diagonal and U on and above it with L*U = A *)
+Theorem C03_mozart_in_place_factors_reproduce_A :
+  forall (N : Num)
+    (Nfield : field_theory (n0 N) (n1 N) (nadd N) (nmul N) (nsub N) (nopp N) (ndiv N) (ninv N) eq)
+    n (A : mat N) (Ap : pat) (M0 : mat N),
+    (forall i, i < n -> Ap i i = true) ->
+    let P := mozart_ip_sym n Ap in
+    (forall r c, r < n -> c < n -> P r c = true -> M0 r c = view N Ap A r c) ->
+    let M := mozart_ip_num N n P M0 in
+    let Lf := fun r c => if c <? r then view N P M r c else if c =? r then n1 N else n0 N in
+    let Uf := fun r c => if r <=? c then view N P M r c else n0 N in
+    (forall i, i < n -> M i i <> n0 N) ->
+    forall r c, r < n -> c < n -> nsum N n (fun j => nmul N (Lf r j) (Uf j c)) = view N Ap A r c.
+Proof. exact mozart_in_place_decomposition_correct. Qed.
+Print Assumptions C03_mozart_in_place_factors_reproduce_A.
